@@ -402,16 +402,12 @@ func (m *Manager) writeSnapshot(w io.Writer) error {
 			return ids[i].Bucket < ids[j].Bucket
 		})
 		for _, id := range ids {
-			meta := version.ValueLogs[id]
-			metaCopy := meta
-			if meta.Valid {
-				if err := writeEdit(w, Edit{Type: EditUpdateValueLog, ValueLog: &metaCopy}); err != nil {
-					return err
-				}
-			} else {
-				if err := writeEdit(w, Edit{Type: EditDeleteValueLog, ValueLog: &metaCopy}); err != nil {
-					return err
-				}
+			// EditUpdateValueLog carries Offset and Valid, so valid and invalid
+			// entries alike reload exactly as they are held in memory
+			// (EditDeleteValueLog would reset the offset of an invalid entry).
+			metaCopy := version.ValueLogs[id]
+			if err := writeEdit(w, Edit{Type: EditUpdateValueLog, ValueLog: &metaCopy}); err != nil {
+				return err
 			}
 		}
 	}
